@@ -695,17 +695,19 @@ def format_duration(t: float, pluralize=False) -> str:
 
     """
 
-    # First decide the base units
-    if t >= 1.0:
+    # First decide the base units. The comparison is made with the same tolerance as the tests further down, so that a
+    # duration that was rounded when it was stored (e.g. 1/52 written to a spreadsheet with 16 significant figures) keeps its base unit
+    tol = 1 - 1e-5
+    if t >= 1.0 * tol:
         base_scale = 1
         timescale = "year"
-    elif t >= 1 / 12:
+    elif t >= 1 / 12 * tol:
         base_scale = 1 / 12
         timescale = "month"
-    elif t >= 1 / 26:
+    elif t >= 1 / 26 * tol:
         base_scale = 1 / 26
         timescale = "fortnight"
-    elif t >= 1 / 52:
+    elif t >= 1 / 52 * tol:
         base_scale = 1 / 52
         timescale = "week"
     else:
@@ -718,8 +720,8 @@ def format_duration(t: float, pluralize=False) -> str:
     # If there is only one of the base unit, then return the timescale as the final string
     if abs(converted_t - 1.0) < 1e-5:
         return (timescale + "s") if pluralize else timescale
-    elif converted_t % 1 < 1e-3:  # If it's sufficiently close to an integer, show it as an integer
-        return "%d %ss" % (converted_t, timescale)
+    elif abs(converted_t - round(converted_t)) < 1e-3:  # If it's sufficiently close to an integer (from either side), show it as an integer
+        return "%d %ss" % (round(converted_t), timescale)
     else:
         return "%s %ss" % (sc.sigfig(converted_t, keepints=True, sigfigs=3), timescale)
 
